@@ -16,8 +16,8 @@ use litep2p::{
     protocol::{
         libp2p::kademlia::{
             verif::{
-                ConnectionType, KademliaMessage, KademliaPeer, Key, VerifKadDump, VerifKademlia,
-                VerifProbe, VerifProbeEntry,
+                ConnectionType, KademliaMessage, KademliaPeer, Key, SchemaMessage, SchemaPeer, SchemaRecord, VerifKadDump,
+                VerifKademlia, VerifProbe, VerifProbeEntry, VerifStoreDump,
             },
             ConfigBuilder, ContentProvider, IncomingRecordValidationMode, KademliaEvent, KademliaHandle, Quorum, Record,
             RecordKey, RoutingTableUpdateMode,
@@ -30,6 +30,7 @@ use litep2p::{
     PeerId,
 };
 use multiaddr::Multiaddr;
+use prost::Message as _;
 use std::{
     collections::{BTreeMap, HashMap, VecDeque},
     future::Future,
@@ -39,9 +40,12 @@ use std::{
     pin::Pin,
     sync::{Arc, Mutex},
     task::{Context, Poll, Waker},
-    time::Duration,
+    time::{Duration, Instant},
 };
 use tokio::io::{AsyncRead, AsyncWrite, ReadBuf};
+
+#[path = "c16_handle.rs"]
+mod handle_stream;
 
 const NADDR: usize = 8;
 const LOCAL: u64 = 99;
@@ -55,7 +59,15 @@ const MAX_POOL: u64 = 10;
 const REFRESH_SECS: u64 = 1000;
 const REFRESH_MS: u64 = REFRESH_SECS * 1000;
 /// more than WRITE_TIMEOUT, more than READ_TIMEOUT of the executor
-const TIMEOUT_MS: u64 = 16_000;
+const TIMEOUT_MS: u64 = 20_000;
+/// composed mode: the store's clock, the refresh futures and every expiry are counted in ticks of 10 s
+/// (coq/C16/Glue.v: TMO_TICKS, C_PROVIDER_TTL, C_RECORD_TTL, C_REFRESH, C_MAX_RECORD_SIZE, C_MAX_RECORDS)
+const TICK_MS: u64 = 10_000;
+const TMO_TICKS: u64 = TIMEOUT_MS / TICK_MS;
+const PROVIDER_TTL_SECS: u64 = 2_500;
+const RECORD_TTL_SECS: u64 = 3_000;
+const MAX_RECORD_SIZE: usize = 4;
+const MAX_RECORDS: usize = 6;
 
 // ------------------------------------------------------------------ in-memory substream carrier
 
@@ -172,10 +184,12 @@ enum Msg {
 #[derive(Clone, Debug, PartialEq)]
 enum Req {
     FindNode(u64),
-    PutValue(u64),
+    /// publisher code (0 none, 1 the local peer, p + 2 peer p, 255 bytes that are no peer id), ttl in ticks
+    PutValue { rk: u64, len: u64, publ: u64, ttl: u64 },
     GetValue(u64),
     GetProviders(u64),
-    AddProvider(bool),
+    /// (peer, number of addresses, 1 = decodes / 0 = peer id bytes that are no peer id / 2 = unknown connection type)
+    AddProvider { rk: u64, provs: Vec<(u64, u64, u64)> },
 }
 
 #[derive(Clone, Debug, PartialEq)]
@@ -211,16 +225,20 @@ enum Ev {
     InReq { id: u64, rq: Req },
     /// composed mode: stop_providing(key rk)
     UStop(u64),
-    /// composed mode: the store's refresh timer for key rk fires; q = label of the refresh operation
-    UFire { q: u64, rk: u64 },
+    /// composed mode: `wait` ticks pass, then the store's refresh future for key rk is taken; q = label of
+    /// the refresh operation (`wait` is filled in when the event is applied)
+    UFire { q: u64, rk: u64, wait: u64 },
+    /// composed mode: d ticks pass
+    UAge(u64),
     /// bounded event channel only: the user receives one event
     Recv,
     // composed mode (routing table and store computed by the model): user-level events
     /// uc: 0 find_node, 1 put_record, 2 start_providing, 3 get_record, 4 get_providers;
     /// rk: label of the record key (put / get / start_providing)
-    UCmd { q: u64, uc: u64, qtag: u64, qn: u64, rk: u64 },
-    UPutToPeers { q: u64, qtag: u64, qn: u64, rk: u64, given: Vec<u64> },
-    UStore(u64),
+    /// len: length of the value (put_record); expc: 0 = no expiry given, n + 1 = expires n ticks from now
+    UCmd { q: u64, uc: u64, qtag: u64, qn: u64, rk: u64, len: u64, expc: u64 },
+    UPutToPeers { q: u64, qtag: u64, qn: u64, rk: u64, len: u64, publ: u64, expc: u64, upd: bool, given: Vec<u64> },
+    UStore { rk: u64, len: u64, publ: u64, expc: u64 },
     UAddKnown(u64, bool),
 }
 
@@ -275,15 +293,15 @@ impl Ev {
             }
             Ev::Nop => o.push(2),
             Ev::Recv => o.push(13),
-            Ev::UCmd { q, uc, qtag, qn, rk } => {
-                o.extend([14, *q, *uc, *qtag, *qn, *rk]);
+            Ev::UCmd { q, uc, qtag, qn, rk, len, expc } => {
+                o.extend([14, *q, *uc, *qtag, *qn, *rk, *len, *expc]);
                 o.extend(target_key(*q, *uc, *rk).iter().map(|b| *b as u64));
             }
-            Ev::UPutToPeers { q, qtag, qn, rk, given } => {
-                o.extend([15, *q, *qtag, *qn, *rk]);
+            Ev::UPutToPeers { q, qtag, qn, rk, len, publ, expc, upd, given } => {
+                o.extend([15, *q, *qtag, *qn, *rk, *len, *publ, *expc, *upd as u64]);
                 push_list(&mut o, given);
             }
-            Ev::UStore(rk) => o.extend([16, *rk]),
+            Ev::UStore { rk, len, publ, expc } => o.extend([16, *rk, *len, *publ, *expc]),
             Ev::UAddKnown(p, a) => o.extend([17, *p, *a as u64]),
             Ev::Established(p, a) => o.extend([4, *p, *a as u64]),
             Ev::Closed(p) => o.extend([5, *p]),
@@ -308,7 +326,7 @@ impl Ev {
                         o.extend([0, *rk]);
                         o.extend(key(*rk));
                     }
-                    Req::PutValue(rk) => o.extend([1, *rk]),
+                    Req::PutValue { rk, len, publ, ttl } => o.extend([1, *rk, *len, *publ, *ttl]),
                     Req::GetValue(rk) => {
                         o.extend([2, *rk]);
                         o.extend(key(*rk));
@@ -317,14 +335,24 @@ impl Ev {
                         o.extend([3, *rk]);
                         o.extend(key(*rk));
                     }
-                    Req::AddProvider(v) => o.extend([4, *v as u64]),
+                    Req::AddProvider { rk, provs } => {
+                        o.extend([4, *rk, provs.len() as u64]);
+                        for (p, na, v) in provs {
+                            o.extend([*p, *na, *v]);
+                        }
+                        o.extend(key(*rk));
+                    }
                 }
             }
-            Ev::UStop(rk) => o.extend([20, *rk]),
-            Ev::UFire { q, rk } => {
-                o.extend([21, *q, *rk]);
+            Ev::UStop(rk) => {
+                o.extend([20, *rk]);
                 o.extend(Key::new(Sys::key_of(*rk)).verif_raw().iter().map(|b| *b as u64));
             }
+            Ev::UFire { q, rk, wait } => {
+                o.extend([21, *q, *rk, *wait]);
+                o.extend(Key::new(Sys::key_of(*rk)).verif_raw().iter().map(|b| *b as u64));
+            }
+            Ev::UAge(d) => o.extend([22, *d]),
         }
         o
     }
@@ -447,14 +475,24 @@ fn decode_case(c: &[u64]) -> Option<(Header, Vec<Ev>)> {
             2 => Ev::Nop,
             13 => Ev::Recv,
             14 => {
-                let e = Ev::UCmd { q: r.n()?, uc: r.n()?, qtag: r.n()?, qn: r.n()?, rk: r.n()? };
+                let e = Ev::UCmd { q: r.n()?, uc: r.n()?, qtag: r.n()?, qn: r.n()?, rk: r.n()?, len: r.n()?, expc: r.n()? };
                 for _ in 0..32 {
                     r.n()?;
                 }
                 e
             }
-            15 => Ev::UPutToPeers { q: r.n()?, qtag: r.n()?, qn: r.n()?, rk: r.n()?, given: r.list()? },
-            16 => Ev::UStore(r.n()?),
+            15 => Ev::UPutToPeers {
+                q: r.n()?,
+                qtag: r.n()?,
+                qn: r.n()?,
+                rk: r.n()?,
+                len: r.n()?,
+                publ: r.n()?,
+                expc: r.n()?,
+                upd: r.n()? != 0,
+                given: r.list()?,
+            },
+            16 => Ev::UStore { rk: r.n()?, len: r.n()?, publ: r.n()?, expc: r.n()? },
             17 => Ev::UAddKnown(r.n()?, r.n()? != 0),
             3 | 18 => {
                 r.n()?;
@@ -490,7 +528,7 @@ fn decode_case(c: &[u64]) -> Option<(Header, Vec<Ev>)> {
                         skip_key(&mut r)?;
                         Req::FindNode(rk)
                     }
-                    1 => Req::PutValue(r.n()?),
+                    1 => Req::PutValue { rk: r.n()?, len: r.n()?, publ: r.n()?, ttl: r.n()? },
                     2 => {
                         let rk = r.n()?;
                         skip_key(&mut r)?;
@@ -501,19 +539,38 @@ fn decode_case(c: &[u64]) -> Option<(Header, Vec<Ev>)> {
                         skip_key(&mut r)?;
                         Req::GetProviders(rk)
                     }
-                    4 => Req::AddProvider(r.n()? != 0),
+                    4 => {
+                        let rk = r.n()?;
+                        let n = r.n()? as usize;
+                        if n > 64 {
+                            return None;
+                        }
+                        let mut provs = Vec::new();
+                        for _ in 0..n {
+                            provs.push((r.n()?, r.n()?, r.n()?));
+                        }
+                        skip_key(&mut r)?;
+                        Req::AddProvider { rk, provs }
+                    }
                     _ => return None,
                 };
                 Ev::InReq { id, rq }
             }
-            20 => Ev::UStop(r.n()?),
-            21 => {
-                let e = Ev::UFire { q: r.n()?, rk: r.n()? };
+            20 => {
+                let e = Ev::UStop(r.n()?);
                 for _ in 0..32 {
                     r.n()?;
                 }
                 e
             }
+            21 => {
+                let e = Ev::UFire { q: r.n()?, rk: r.n()?, wait: r.n()? };
+                for _ in 0..32 {
+                    r.n()?;
+                }
+                e
+            }
+            22 => Ev::UAge(r.n()?),
             _ => return None,
         };
         evs.push(e);
@@ -530,8 +587,7 @@ fn decode_case(c: &[u64]) -> Option<(Header, Vec<Ev>)> {
 fn target_key(q: u64, uc: u64, rk: u64) -> [u8; 32] {
     match uc {
         0 => Key::from(mk_peer(1_000 + q)).verif_raw(),
-        1 | 2 | 3 => Key::new(Sys::key_of(rk)).verif_raw(),
-        _ => Key::new(Sys::key_of(q)).verif_raw(),
+        _ => Key::new(Sys::key_of(rk)).verif_raw(),
     }
 }
 
@@ -603,8 +659,9 @@ struct Sys {
     /// store (key label, deadline)
     prov: HashMap<u64, (u64, u64)>,
     timers: Vec<(u64, u64)>,
-    /// composed mode: replies written to inbound substreams while the current event was handled
-    replies: Vec<(bool, Vec<u64>)>,
+    /// composed mode: replies written to inbound substreams while the current event was handled:
+    /// (a record is attached, closer peers, providers as (peer, number of addresses))
+    replies: Vec<(bool, Vec<u64>, Vec<(u64, u64)>)>,
     cap: u64,
     /// bounded channel: the loop is blocked in a handler on a full event channel
     parked: bool,
@@ -634,7 +691,11 @@ impl Sys {
         );
         let mut builder = ConfigBuilder::new()
             .with_replication_factor(h.k as usize)
-            .with_provider_refresh_interval(Duration::from_secs(REFRESH_SECS));
+            .with_provider_refresh_interval(Duration::from_secs(REFRESH_SECS))
+            .with_provider_record_ttl(Duration::from_secs(PROVIDER_TTL_SECS))
+            .with_record_ttl(Duration::from_secs(RECORD_TTL_SECS))
+            .with_max_record_size(MAX_RECORD_SIZE)
+            .with_max_records(MAX_RECORDS);
         if h.mode & 4 != 0 {
             builder = builder.with_routing_table_update_mode(RoutingTableUpdateMode::Manual);
         }
@@ -773,6 +834,45 @@ impl Sys {
         rank
     }
 
+    /// publisher code of a record: 0 none, 1 the local peer, p + 2 peer p
+    fn publisher_of(&self, code: u64) -> Option<PeerId> {
+        match code {
+            0 => None,
+            1 => Some(mk_peer(500)),
+            c => Some(self.peer(c - 2)),
+        }
+    }
+
+    /// A record as the user hands it to the handle: `len` bytes LOCAL_REC, expiry `expc - 1` ticks from now.
+    fn user_record(&self, rk: u64, len: u64, publ: u64, expc: u64) -> Record {
+        Record {
+            key: Self::key_of(rk),
+            value: vec![LOCAL_REC; len as usize],
+            publisher: self.publisher_of(publ),
+            expires: if expc == 0 { None } else { Some(Instant::now() + Duration::from_millis((expc - 1) * TICK_MS)) },
+        }
+    }
+
+    /// Lets `ticks` of logical time pass without an event of its own: the store ages (applied by the loop
+    /// the next time it goes round, which a command that touches nothing makes it do), then tokio's
+    /// clock moves (executor timeouts, refresh futures).
+    async fn pass_time(&mut self, ticks: u64) {
+        let by = Duration::from_millis(ticks * TICK_MS);
+        if self.mode & 1 == 1 {
+            self.probe.request_store_age(by);
+            let _ = self.handle.stop_providing(RecordKey::from(vec![252u8, 9])).now_or_never();
+            self.poll();
+            for en in self.probe.take() {
+                match en {
+                    VerifProbeEntry::AtSelect(d) => self.dump = d,
+                    other => self.probe_back.push(other),
+                }
+            }
+        }
+        tokio::time::advance(by).await;
+        self.now_ms += ticks * TICK_MS;
+    }
+
     fn kad_peer(&self, p: u64) -> KademliaPeer {
         KademliaPeer::new(self.peer(p), vec![self.peer_addr(p % 200)], ConnectionType::NotConnected)
     }
@@ -826,31 +926,56 @@ impl Sys {
 
     /// A request of a remote peer about the record key with label `rk`.
     fn req_bytes(&self, sender: u64, rq: &Req) -> Vec<u8> {
+        let _ = sender;
         let payload: Vec<u8> = match rq {
             Req::FindNode(rk) => KademliaMessage::find_node(Self::key_of(*rk).to_vec()).to_vec(),
-            Req::PutValue(rk) => KademliaMessage::put_value(Record {
-                key: Self::key_of(*rk),
-                value: vec![LOCAL_REC],
-                publisher: None,
-                expires: None,
-            })
-            .to_vec(),
+            Req::PutValue { rk, len, publ, ttl } => {
+                let kb = Self::key_of(*rk).to_vec();
+                SchemaMessage {
+                    r#type: 0,
+                    cluster_level_raw: 10,
+                    key: kb.clone(),
+                    record: Some(SchemaRecord {
+                        key: kb,
+                        value: vec![LOCAL_REC; *len as usize],
+                        time_received: String::new(),
+                        publisher: if *publ == 255 {
+                            vec![1, 2, 3]
+                        } else {
+                            self.publisher_of(*publ).map(|p| p.to_bytes()).unwrap_or_default()
+                        },
+                        ttl: (*ttl * TICK_MS / 1000) as u32,
+                    }),
+                    closer_peers: vec![],
+                    provider_peers: vec![],
+                }
+                .encode_to_vec()
+            }
             Req::GetValue(rk) => KademliaMessage::get_record(Self::key_of(*rk)).to_vec(),
             Req::GetProviders(rk) => KademliaMessage::get_providers_request(Self::key_of(*rk)).to_vec(),
-            Req::AddProvider(valid) => {
-                let who = if *valid { self.peer(sender) } else { mk_peer(424_242) };
-                KademliaMessage::add_provider(
-                    RecordKey::from(vec![250u8, 1, 2]),
-                    ContentProvider { peer: who, addresses: vec![self.addrs[0].clone()] },
-                )
-                .to_vec()
+            Req::AddProvider { rk, provs } => SchemaMessage {
+                r#type: 2,
+                cluster_level_raw: 10,
+                key: Self::key_of(*rk).to_vec(),
+                record: None,
+                closer_peers: vec![],
+                provider_peers: provs
+                    .iter()
+                    .map(|(p, na, valid)| SchemaPeer {
+                        id: if *valid == 0 { vec![9, 9, 9] } else { self.peer(*p).to_bytes() },
+                        addrs: self.addrs.iter().take(*na as usize).map(|a| a.to_vec()).collect(),
+                        connection: if *valid == 2 { 77 } else { 1 },
+                    })
+                    .collect(),
             }
+            .encode_to_vec(),
         };
         varint_frame(&payload)
     }
 
-    /// The reply the node wrote to inbound substream `id`: (a record is attached, the closer peers).
-    fn take_reply(&self, id: u64) -> Option<(bool, Vec<u64>)> {
+    /// The reply the node wrote to inbound substream `id`: (a record is attached, the closer peers, the
+    /// providers with the number of their addresses).
+    fn take_reply(&self, id: u64) -> Option<(bool, Vec<u64>, Vec<(u64, u64)>)> {
         let bytes = self.carriers.get(&id)?.take_written();
         // unsigned-varint length prefix
         let mut i = 0;
@@ -863,9 +988,13 @@ impl Sys {
         let body = bytes::BytesMut::from(&bytes[i + 1..]);
         let labels = |ps: &Vec<KademliaPeer>| ps.iter().map(|p| self.idx(&p.verif_peer())).collect::<Vec<u64>>();
         match KademliaMessage::from_bytes(body, 64)? {
-            KademliaMessage::FindNode { peers, .. } => Some((false, labels(&peers))),
-            KademliaMessage::GetRecord { record, peers, .. } => Some((record.is_some(), labels(&peers))),
-            KademliaMessage::GetProviders { peers, .. } => Some((false, labels(&peers))),
+            KademliaMessage::FindNode { peers, .. } => Some((false, labels(&peers), Vec::new())),
+            KademliaMessage::GetRecord { record, peers, .. } => Some((record.is_some(), labels(&peers), Vec::new())),
+            KademliaMessage::GetProviders { peers, providers, .. } => Some((
+                false,
+                labels(&peers),
+                providers.iter().map(|p| (self.idx(&p.verif_peer()), p.addresses().len() as u64)).collect(),
+            )),
             _ => None,
         }
     }
@@ -916,6 +1045,8 @@ impl Sys {
         let mut refresh_label: Option<u64> = None;
         let mut want_reply: Option<u64> = None;
         let mut applied: Option<(u64, u64, bool)> = None;
+        let mut fire_wait: Option<u64> = None;
+        let mut post_advance: Option<u64> = None;
         self.replies.clear();
         match &e {
             Ev::Cmd { q, ctag, qtag, qn, local, .. } => {
@@ -979,47 +1110,37 @@ impl Sys {
                     real_q = Some(r.0);
                 }
             }
-            Ev::UCmd { q, uc, qtag, qn, rk } => {
+            Ev::UCmd { q, uc, qtag, qn, rk, len, expc } => {
                 let quorum = Self::quorum(*qtag, *qn);
                 let r = match uc {
                     0 => self.handle.try_find_node(mk_peer(1_000 + q)).ok(),
-                    1 => self
-                        .handle
-                        .try_put_record(
-                            Record { key: Self::key_of(*rk), value: vec![LOCAL_REC], publisher: None, expires: None },
-                            quorum,
-                        )
-                        .ok(),
+                    1 => self.handle.try_put_record(self.user_record(*rk, *len, 0, *expc), quorum).ok(),
                     2 => {
-                        // put_local_provider arms a refresh timer of the store; no two timers share a
-                        // deadline (they are fired one at a time)
-                        while self.timers.iter().any(|t| t.1.abs_diff(self.now_ms + REFRESH_MS) < 3) {
-                            if self.timers.iter().any(|t| t.1 <= self.now_ms + 3) {
-                                // the clock cannot be moved without firing a timer: the command is not issued
-                                return Vec::new();
-                            }
-                            tokio::time::advance(Duration::from_millis(1)).await;
-                            self.now_ms += 1;
+                        // put_local_provider arms a refresh future of the store; no two futures have deadlines
+                        // within three ticks of each other (they are taken one at a time)
+                        if self.timers.iter().any(|t| t.1.abs_diff(self.now_ms + REFRESH_MS) < 3 * TICK_MS) {
+                            // the command is not issued
+                            return Vec::new();
                         }
                         self.prov.insert(*rk, (*qtag, *qn));
                         self.timers.push((*rk, self.now_ms + REFRESH_MS));
                         self.handle.start_providing(Self::key_of(*rk), quorum).now_or_never()
                     }
                     3 => self.handle.try_get_record(Self::key_of(*rk), quorum).ok(),
-                    _ => self.handle.get_providers(Self::key_of(*q)).now_or_never(),
+                    _ => self.handle.get_providers(Self::key_of(*rk)).now_or_never(),
                 };
                 if let Some(r) = r {
                     self.qmap.insert(r.0, *q);
                     real_q = Some(r.0);
                 }
             }
-            Ev::UPutToPeers { q, qtag, qn, rk, given } => {
+            Ev::UPutToPeers { q, qtag, qn, rk, len, publ, expc, upd, given } => {
                 let r = self
                     .handle
                     .try_put_record_to_peers(
-                        Record { key: Self::key_of(*rk), value: vec![LOCAL_REC], publisher: None, expires: None },
+                        self.user_record(*rk, *len, *publ, *expc),
                         given.iter().map(|p| self.peer(*p)).collect(),
-                        false,
+                        *upd,
                         Self::quorum(*qtag, *qn),
                     )
                     .ok();
@@ -1032,25 +1153,36 @@ impl Sys {
                 self.prov.remove(rk);
                 let _ = self.handle.stop_providing(Self::key_of(*rk)).now_or_never();
             }
-            Ev::UFire { q, rk } => {
-                // the earliest timer of the store fires (only that one: deadlines are kept apart)
+            Ev::UFire { q, rk, .. } => {
+                // the earliest refresh future of the store completes (only that one: deadlines are kept apart)
                 let first = self.timers.iter().enumerate().min_by_key(|(_, t)| t.1).map(|(i, t)| (i, *t));
                 match first {
-                    Some((i, (key, deadline))) if key == *rk => {
+                    Some((i, (key, deadline))) if key == *rk && self.inflight.is_empty() => {
                         self.timers.remove(i);
-                        // every other timer is due at least 3 ms later, every timer was armed before
-                        // `deadline`: the one armed by the refresh keeps that distance too
-                        let at = deadline.max(self.now_ms) + 2;
-                        let wait = at - self.now_ms;
-                        tokio::time::advance(Duration::from_millis(wait)).await;
-                        self.now_ms += wait;
+                        // every other future is due at least 3 ticks later
+                        let at = deadline.max(self.now_ms) + TICK_MS;
+                        let wait = (at - self.now_ms) / TICK_MS;
+                        self.pass_time(wait).await;
+                        fire_wait = Some(wait);
                         if self.prov.contains_key(rk) {
                             self.timers.push((*rk, self.now_ms + REFRESH_MS));
                             refresh_label = Some(*q);
                         }
                     }
-                    _ => expect = false,
+                    _ => return Vec::new(),
                 }
+            }
+            Ev::UAge(d) => {
+                // explicit time passing: no future in flight (executor timeouts), no refresh future due
+                let ok = self.inflight.is_empty()
+                    && *d > 0
+                    && !self.timers.iter().any(|t| t.1 <= self.now_ms + (*d + 3) * TICK_MS);
+                if !ok {
+                    return Vec::new();
+                }
+                self.probe.request_store_age(Duration::from_millis(*d * TICK_MS));
+                let _ = self.handle.stop_providing(RecordKey::from(vec![252u8, 9])).now_or_never();
+                post_advance = Some(*d);
             }
             Ev::InReq { id, rq } => {
                 expect = false;
@@ -1062,8 +1194,9 @@ impl Sys {
                     self.inflight.remove(id);
                     let reply = match rq {
                         Req::FindNode(_) | Req::GetValue(_) | Req::GetProviders(_) => Some(FKind::InSend),
-                        Req::PutValue(_) => Some(FKind::InSendEat),
-                        Req::AddProvider(_) => None,
+                        Req::PutValue { publ: 255, .. } => None,
+                        Req::PutValue { .. } => Some(FKind::InSendEat),
+                        Req::AddProvider { .. } => None,
                     };
                     if let Some(k) = reply {
                         self.inflight.insert(*id, k);
@@ -1074,13 +1207,8 @@ impl Sys {
                     }
                 }
             }
-            Ev::UStore(rk) => {
-                let _ = self.handle.try_store_record(Record {
-                    key: Self::key_of(*rk),
-                    value: vec![LOCAL_REC],
-                    publisher: None,
-                    expires: None,
-                });
+            Ev::UStore { rk, len, publ, expc } => {
+                let _ = self.handle.try_store_record(self.user_record(*rk, *len, *publ, *expc));
             }
             Ev::UAddKnown(p, addr) => {
                 let addrs = if *addr { vec![self.peer_addr(*p % 200)] } else { vec![] };
@@ -1188,8 +1316,7 @@ impl Sys {
                         match wb {
                             0 => c.set(Some(1), None, false),
                             2 if sole => {
-                                tokio::time::advance(Duration::from_millis(TIMEOUT_MS)).await;
-                                self.now_ms += TIMEOUT_MS;
+                                self.pass_time(TMO_TICKS).await;
                                 timed = true;
                             }
                             _ => {
@@ -1205,8 +1332,7 @@ impl Sys {
                             2 if sole => {
                                 // the request goes out (outbound futures), the answer never comes
                                 self.poll();
-                                tokio::time::advance(Duration::from_millis(TIMEOUT_MS)).await;
-                                self.now_ms += TIMEOUT_MS;
+                                self.pass_time(TMO_TICKS).await;
                                 timed = true;
                             }
                             _ => {
@@ -1239,7 +1365,14 @@ impl Sys {
             *rb = r;
             *tmo = t;
         }
+        if let (Ev::UFire { wait, .. }, Some(w)) = (&mut e, fire_wait) {
+            *wait = w;
+        }
         self.poll();
+        if let Some(d) = post_advance {
+            tokio::time::advance(Duration::from_millis(d * TICK_MS)).await;
+            self.now_ms += d * TICK_MS;
+        }
         if let Some(id) = want_reply {
             if let Some(r) = self.take_reply(id) {
                 self.replies.push(r);
@@ -1535,32 +1668,15 @@ impl Sys {
                 out.extend([self.idx(&node.peer), node.has_addresses as u64, conn]);
             }
         }
-        let mut keys: Vec<u64> = d
-            .store_keys
-            .iter()
-            .map(|k| match k.as_slice() {
-                [a, b, 7, 7] => *a as u64 + 256 * *b as u64,
-                [250, 1, 2] => 250,
-                _ => 999,
-            })
-            .collect();
-        keys.sort();
-        push_list(out, &keys);
-        let mut provs: Vec<u64> = d
-            .local_providers
-            .iter()
-            .map(|k| match k.as_slice() {
-                [a, b, 7, 7] => *a as u64 + 256 * *b as u64,
-                _ => 999,
-            })
-            .collect();
-        provs.sort();
-        push_list(out, &provs);
-        out.push(d.refresh_timers as u64);
+        enc_store_dump(&d.store, &|p| self.idx(p), out);
         out.push(self.replies.len() as u64);
-        for (found, peers) in &self.replies {
+        for (found, peers, provs) in &self.replies {
             out.push(*found as u64);
             push_list(out, peers);
+            out.push(provs.len() as u64);
+            for (p, na) in provs {
+                out.extend([*p, *na]);
+            }
         }
     }
 
@@ -1593,6 +1709,97 @@ impl Sys {
 
 // ------------------------------------------------------------------ running cases
 
+/// Label of a record key of the cases.
+fn key_label(k: &[u8]) -> u64 {
+    match k {
+        [a, b, 7, 7] => *a as u64 + 256 * *b as u64,
+        [250, 1, 2] => 250,
+        _ => 999,
+    }
+}
+
+/// publisher code of a record: 0 none, 1 the local peer, p + 2 peer p
+fn publisher_code(p: &Option<PeerId>, idx: &dyn Fn(&PeerId) -> u64) -> u64 {
+    match p {
+        None => 0,
+        Some(p) if *p == mk_peer(500) => 1,
+        Some(p) => match idx(p) {
+            UNKNOWN => 999,
+            i => i + 2,
+        },
+    }
+}
+
+/// The store of the loop as coq/C16/Glue.v `dump_store` writes it.
+fn enc_store_dump(st: &VerifStoreDump, idx: &dyn Fn(&PeerId) -> u64, out: &mut Vec<u64>) {
+    // the store: records, provider records per key in stored order, local_providers, refresh futures
+    let now = Instant::now();
+    let ticks = |d: Duration| (d.as_millis() as u64 + TICK_MS / 2) / TICK_MS;
+    let rel = |exp: Option<Instant>| -> [u64; 2] {
+        match exp {
+            None => [2, 0],
+            Some(t) if t <= now => [0, ticks(now - t)],
+            Some(t) => [1, ticks(t - now)],
+        }
+    };
+    let mut recs: Vec<[u64; 5]> = st
+        .records
+        .iter()
+        .map(|r| {
+            let e = rel(r.expires);
+            [
+                key_label(r.key.as_ref()),
+                r.value.first().copied().unwrap_or(0) as u64 + 256 * publisher_code(&r.publisher, idx),
+                r.value.len() as u64,
+                e[0],
+                e[1],
+            ]
+        })
+        .collect();
+    recs.sort();
+    out.push(recs.len() as u64);
+    for r in recs {
+        out.extend(r);
+    }
+    let mut pk: Vec<(u64, Vec<u64>)> = st
+        .provider_keys
+        .iter()
+        .map(|(k, ps)| {
+            let mut v = vec![ps.len() as u64];
+            for p in ps {
+                let e = rel(Some(p.expires));
+                v.extend([idx(&p.provider), p.addresses.len() as u64, e[0], e[1]]);
+            }
+            (key_label(k.as_ref()), v)
+        })
+        .collect();
+    pk.sort();
+    out.push(pk.len() as u64);
+    for (k, v) in pk {
+        out.push(k);
+        out.extend(v);
+    }
+    let mut qs: Vec<[u64; 2]> = st
+        .local_providers
+        .iter()
+        .map(|(k, p, q)| {
+            let okp = p.peer == mk_peer(500) && p.addresses.is_empty();
+            let code = match q {
+                Quorum::All => 0,
+                Quorum::One => 1,
+                Quorum::N(n) => n.get() as u64 + 1,
+            };
+            [key_label(k.as_ref()), if okp { code } else { 777_777 }]
+        })
+        .collect();
+    qs.sort();
+    out.push(qs.len() as u64);
+    for x in qs {
+        out.extend(x);
+    }
+    out.push(st.pending_refresh as u64);
+}
+
 fn runtime() -> tokio::runtime::Runtime {
     tokio::runtime::Builder::new_current_thread().enable_time().start_paused(true).build().unwrap()
 }
@@ -1600,6 +1807,9 @@ fn runtime() -> tokio::runtime::Runtime {
 /// Replays the select! events of a stored case; returns the case with fresh oracle fields and
 /// the trace.
 fn run_stored(c: &[u64]) -> Option<(Vec<u64>, Vec<u64>)> {
+    if c.first() == Some(&handle_stream::HANDLE_TAG) {
+        return handle_stream::run_stored(c);
+    }
     let (h, evs) = decode_case(c)?;
     let rt = runtime();
     // unconstrained: tokio's cooperative budget would make channel polls return Pending spuriously
@@ -1687,16 +1897,37 @@ impl Gen {
 
     /// The completion of a future; in composed mode a request read from an inbound substream is a
     /// request about a record key (label), so that the model computes the reply and the store effect.
-    fn completion(&mut self, compose: bool, id: u64, kind: FKind, res: Res, how: u64, rks: &[u64]) -> Ev {
+    fn completion(&mut self, compose: bool, id: u64, kind: FKind, res: Res, how: u64, rks: &[u64], sender: u64) -> Ev {
         if compose && kind == FKind::InRead {
             if let Res::Read(m) = &res {
                 let rk = if !rks.is_empty() && self.rng.chance(65) { self.rng.pick(rks) } else { 300 + self.rng.below(4) };
+                // provider keys are few, so that announcements, lookups and the node's own keys meet
+                let pk = 500 + self.rng.below(3);
                 let rq = match m {
                     Msg::FindNode(_) => Some(Req::FindNode(rk)),
-                    Msg::PutValue => Some(Req::PutValue(rk)),
+                    Msg::PutValue => Some(Req::PutValue {
+                        rk,
+                        len: self.rng.pick(&[1u64, 1, 2, 3, 4]),
+                        publ: self.rng.pick(&[0u64, 0, 1, 2, 3, 255]),
+                        ttl: self.rng.pick(&[0u64, 0, 1, 5, 200]),
+                    }),
                     Msg::GetRecord { .. } => Some(Req::GetValue(rk)),
-                    Msg::GetProviders { .. } => Some(Req::GetProviders(rk)),
-                    Msg::AddProvider(v) => Some(Req::AddProvider(*v)),
+                    Msg::GetProviders { .. } => Some(Req::GetProviders(pk)),
+                    Msg::AddProvider(v) => {
+                        let na = self.rng.below(4);
+                        let provs = if *v {
+                            vec![(sender, na, 1)]
+                        } else {
+                            match self.rng.below(5) {
+                                0 => vec![((sender + 1) % self.n, na, 1)],
+                                1 => vec![(sender, na, 1), ((sender + 1) % self.n, 1, 1)],
+                                2 => vec![],
+                                3 => vec![(sender, na, 0)],
+                                _ => vec![(sender, na, 2), ((sender + 1) % self.n, 1, 1)],
+                            }
+                        };
+                        Some(Req::AddProvider { rk: pk, provs })
+                    }
                     Msg::Invalid => None,
                 };
                 if let Some(rq) = rq {
@@ -1881,9 +2112,18 @@ fn generate(seed: u64, tier_long: bool, cap: u64, compose: bool, stale: bool) ->
                     if compose {
                         // a record key used before gives get_record a local hit
                         let rk = if !rks.is_empty() && g.rng.chance(60) { g.rng.pick(&rks) } else { q };
+                        // value lengths: 4 bytes and more are refused by the store; expiry: none given (the
+                        // record ttl), at once, soon, late
+                        let len = g.rng.pick(&[1u64, 1, 2, 3, 4]);
+                        let expc = g.rng.pick(&[0u64, 0, 1, 3, 40, 400]);
                         if g.rng.chance(20) {
                             let given = g.peers_list(4, true);
-                            Ev::UPutToPeers { q, qtag, qn, rk: q, given }
+                            let upd = g.rng.chance(50);
+                            if upd {
+                                rks.push(q);
+                            }
+                            let publ = g.rng.pick(&[0u64, 0, 1, 2]);
+                            Ev::UPutToPeers { q, qtag, qn, rk: q, len, publ, expc, upd, given }
                         } else {
                             let uc = g.rng.below(5);
                             if uc == 1 {
@@ -1892,10 +2132,10 @@ fn generate(seed: u64, tier_long: bool, cap: u64, compose: bool, stale: bool) ->
                             // few provider keys: start_providing the same key again arms a second timer
                             let rk = match uc {
                                 1 => q,
-                                2 => 500 + g.rng.below(3),
+                                2 | 4 => 500 + g.rng.below(3),
                                 _ => rk,
                             };
-                            Ev::UCmd { q, uc, qtag, qn, rk }
+                            Ev::UCmd { q, uc, qtag, qn, rk, len, expc }
                         }
                     } else if g.rng.chance(25) {
                         let peers = g.peers_list(4, true);
@@ -1945,7 +2185,7 @@ fn generate(seed: u64, tier_long: bool, cap: u64, compose: bool, stale: bool) ->
                     if compose {
                         // the earliest timer of the store
                         let rk = s.timers.iter().min_by_key(|t| t.1).map(|t| t.0).unwrap_or(0);
-                        Ev::UFire { q, rk }
+                        Ev::UFire { q, rk, wait: 0 }
                     } else {
                         let (label, _, qtag, qn) = s.provided[0];
                         Ev::Cmd { q, ctag: 5, qtag, qn, local: label + 1, dists: vec![], seeds: vec![] }
@@ -1956,7 +2196,12 @@ fn generate(seed: u64, tier_long: bool, cap: u64, compose: bool, stale: bool) ->
                     let qtag = fut_query_tag(&s, id);
                     let res = g.result_for(kind, qtag, happy);
                     let how = if futs.len() == 1 && g.rng.chance(25) { 1 } else { 0 };
-                    g.completion(compose, id, kind, res, how, &rks)
+                    // composed mode: an ADD_PROVIDER the store would accept arrives as a request only (UInReq)
+                    let res = match res {
+                        Res::Read(Msg::AddProvider(true)) if compose && kind != FKind::InRead => Res::Read(Msg::AddProvider(false)),
+                        r => r,
+                    };
+                    g.completion(compose, id, kind, res, how, &rks, s.sub_peer.get(&id).copied().unwrap_or(0))
                 }
                 _ => {
                     // noise: things that happen without being asked for
@@ -1995,13 +2240,20 @@ fn generate(seed: u64, tier_long: bool, cap: u64, compose: bool, stale: bool) ->
                 }
             };
             let ev = match ev {
-                Ev::Nop if compose => match g.rng.below(5) {
+                Ev::Nop if compose => match g.rng.below(7) {
                     0 | 1 => {
                         let rk = 200 + g.rng.below(3);
                         rks.push(rk);
-                        Ev::UStore(rk)
+                        Ev::UStore {
+                            rk,
+                            len: g.rng.pick(&[1u64, 1, 2, 4]),
+                            publ: g.rng.pick(&[0u64, 0, 1, 3]),
+                            expc: g.rng.pick(&[0u64, 0, 1, 3, 40]),
+                        }
                     }
                     2 => Ev::UStop(500 + g.rng.below(3)),
+                    // time passes (only between the futures' lives: the harness refuses it otherwise)
+                    3 | 4 => Ev::UAge(g.rng.pick(&[1u64, 2, 5, 39, 90, 160, 310])),
                     _ => Ev::UAddKnown(g.rng.below(MAX_POOL), g.rng.chance(80)),
                 },
                 e => e,
@@ -2019,7 +2271,11 @@ fn generate(seed: u64, tier_long: bool, cap: u64, compose: bool, stale: bool) ->
                 } else if let Some((id, kind)) = futs.first().copied() {
                     let qtag = fut_query_tag(&s, id);
                     let res = g.result_for(kind, qtag, happy);
-                    g.completion(compose, id, kind, res, 0, &rks)
+                    let res = match res {
+                        Res::Read(Msg::AddProvider(true)) if compose && kind != FKind::InRead => Res::Read(Msg::AddProvider(false)),
+                        r => r,
+                    };
+                    g.completion(compose, id, kind, res, 0, &rks, s.sub_peer.get(&id).copied().unwrap_or(0))
                 } else if let Some((sid, p)) = subs.first().copied() {
                     g.answered.push(sid);
                     if g.rng.chance(happy.max(40)) {
@@ -2198,10 +2454,10 @@ fn witnesses() -> Vec<(&'static str, Header, Vec<Ev>)> {
             vec![
                 Ev::Established(0, true),
                 Ev::Established(1, true),
-                Ev::UCmd { q: 0, uc: 0, qtag: 1, qn: 1, rk: 0 },
+                Ev::UCmd { q: 0, uc: 0, qtag: 1, qn: 1, rk: 0, len: 1, expc: 0 },
                 Ev::Inbound(1, INBOUND_BASE),
                 Ev::InReq { id: INBOUND_BASE, rq: Req::FindNode(7) },
-                Ev::UCmd { q: 1, uc: 1, qtag: 1, qn: 1, rk: 9 },
+                Ev::UCmd { q: 1, uc: 1, qtag: 1, qn: 1, rk: 9, len: 1, expc: 0 },
                 Ev::Inbound(1, INBOUND_BASE + 1),
                 Ev::InReq { id: INBOUND_BASE + 1, rq: Req::GetValue(9) },
                 fut_ev(INBOUND_BASE, Some(FKind::InSend), Res::SendOk, 0),
@@ -2222,12 +2478,12 @@ fn witnesses() -> Vec<(&'static str, Header, Vec<Ev>)> {
             vec![
                 Ev::Established(1, true),
                 Ev::Inbound(1, INBOUND_BASE),
-                Ev::InReq { id: INBOUND_BASE, rq: Req::PutValue(5) },
+                Ev::InReq { id: INBOUND_BASE, rq: Req::PutValue { rk: 5, len: 1, publ: 0, ttl: 0 } },
                 fut_ev(INBOUND_BASE, Some(FKind::InSendEat), Res::SendOk, 0),
                 Ev::Inbound(1, INBOUND_BASE + 1),
                 Ev::InReq { id: INBOUND_BASE + 1, rq: Req::GetValue(5) },
                 fut_ev(INBOUND_BASE + 1, Some(FKind::InSend), Res::SendOk, 0),
-                Ev::UStore(5),
+                Ev::UStore { rk: 5, len: 1, publ: 0, expc: 0 },
                 Ev::Inbound(1, INBOUND_BASE + 2),
                 Ev::InReq { id: INBOUND_BASE + 2, rq: Req::GetValue(5) },
                 fut_ev(INBOUND_BASE + 2, Some(FKind::InSend), Res::SendOk, 0),
@@ -2240,7 +2496,7 @@ fn witnesses() -> Vec<(&'static str, Header, Vec<Ev>)> {
             Header { k: 20, mgr: vec![(0, 2), (1, 0), (2, 0)], known: vec![0], cap: 0, mode: 1 | 4, pool: MAX_POOL },
             vec![
                 Ev::Established(0, true),
-                Ev::UCmd { q: 0, uc: 0, qtag: 1, qn: 1, rk: 0 },
+                Ev::UCmd { q: 0, uc: 0, qtag: 1, qn: 1, rk: 0, len: 1, expc: 0 },
                 Ev::Opened(0, 0),
                 fut_ev(0, Some(FKind::ReqResp), Res::Read(Msg::FindNode(vec![1, 2])), 0),
                 Ev::UAddKnown(1, true),
@@ -2253,24 +2509,94 @@ fn witnesses() -> Vec<(&'static str, Header, Vec<Ev>)> {
             Header { k: 20, mgr: vec![(0, 2)], known: vec![0], cap: 0, mode: 1, pool: MAX_POOL },
             vec![
                 Ev::Established(0, true),
-                Ev::UCmd { q: 0, uc: 2, qtag: 1, qn: 1, rk: 500 },
+                Ev::UCmd { q: 0, uc: 2, qtag: 1, qn: 1, rk: 500, len: 1, expc: 0 },
                 Ev::Opened(0, 0),
                 fut_ev(0, Some(FKind::ReqResp), Res::Read(Msg::FindNode(vec![])), 0),
                 Ev::Opened(0, 1),
                 fut_ev(1, Some(FKind::Send), Res::SendOk, 0),
-                Ev::UCmd { q: 1, uc: 2, qtag: 1, qn: 1, rk: 500 },
+                Ev::UAge(5),
+                Ev::UCmd { q: 1, uc: 2, qtag: 1, qn: 1, rk: 500, len: 1, expc: 0 },
                 Ev::Opened(0, 2),
                 fut_ev(2, Some(FKind::ReqResp), Res::Read(Msg::FindNode(vec![])), 0),
                 Ev::Opened(0, 3),
                 fut_ev(3, Some(FKind::Send), Res::SendOk, 0),
-                Ev::UFire { q: 2, rk: 500 },
+                Ev::UFire { q: 2, rk: 500, wait: 0 },
                 Ev::Opened(0, 4),
                 fut_ev(4, Some(FKind::ReqResp), Res::Read(Msg::FindNode(vec![])), 0),
                 Ev::Opened(0, 5),
                 fut_ev(5, Some(FKind::Send), Res::SendOk, 0),
                 Ev::UStop(500),
-                Ev::UFire { q: 3, rk: 500 },
-                Ev::UFire { q: 4, rk: 500 },
+                Ev::UFire { q: 3, rk: 500, wait: 0 },
+                Ev::UFire { q: 4, rk: 500, wait: 0 },
+            ],
+        ),
+        (
+            // record expiry: a stored record answers get_record(One) at once and a remote GET_VALUE until its
+            // expiry has passed; afterwards both miss
+            "record_expiry_local_and_remote",
+            Header { k: 20, mgr: vec![(1, 2)], known: vec![], cap: 0, mode: 1, pool: MAX_POOL },
+            vec![
+                Ev::Established(1, true),
+                Ev::UStore { rk: 5, len: 2, publ: 3, expc: 4 },
+                Ev::UCmd { q: 0, uc: 3, qtag: 1, qn: 1, rk: 5, len: 1, expc: 0 },
+                Ev::UAge(2),
+                Ev::Inbound(1, INBOUND_BASE),
+                Ev::InReq { id: INBOUND_BASE, rq: Req::GetValue(5) },
+                fut_ev(INBOUND_BASE, Some(FKind::InSend), Res::SendOk, 0),
+                Ev::UAge(1),
+                Ev::UCmd { q: 1, uc: 3, qtag: 1, qn: 1, rk: 5, len: 1, expc: 0 },
+                Ev::Inbound(1, INBOUND_BASE + 1),
+                Ev::InReq { id: INBOUND_BASE + 1, rq: Req::GetValue(5) },
+                fut_ev(INBOUND_BASE + 1, Some(FKind::InSend), Res::SendOk, 0),
+            ],
+        ),
+        (
+            // provider records of the store: an inbound ADD_PROVIDER of the sender is stored, served to a
+            // remote GET_PROVIDERS and handed to the node's own get_providers as a known provider; an
+            // announcement for a third party is ignored; after the provider ttl the record is gone
+            "provider_records_announce_serve_expire",
+            Header { k: 20, mgr: vec![(1, 2), (2, 2)], known: vec![], cap: 0, mode: 1, pool: MAX_POOL },
+            vec![
+                Ev::Established(1, true),
+                Ev::Established(2, true),
+                Ev::Inbound(1, INBOUND_BASE),
+                Ev::InReq { id: INBOUND_BASE, rq: Req::AddProvider { rk: 500, provs: vec![(1, 2, 1)] } },
+                Ev::Inbound(2, INBOUND_BASE + 1),
+                Ev::InReq { id: INBOUND_BASE + 1, rq: Req::AddProvider { rk: 500, provs: vec![(1, 3, 1)] } },
+                Ev::UCmd { q: 0, uc: 2, qtag: 2, qn: 2, rk: 500, len: 1, expc: 0 },
+                Ev::Inbound(2, INBOUND_BASE + 2),
+                Ev::InReq { id: INBOUND_BASE + 2, rq: Req::GetProviders(500) },
+                fut_ev(INBOUND_BASE + 2, Some(FKind::InSend), Res::SendOk, 0),
+                Ev::UCmd { q: 1, uc: 4, qtag: 1, qn: 1, rk: 500, len: 1, expc: 0 },
+                Ev::UStop(500),
+                Ev::UAge(90),
+                Ev::UFire { q: 2, rk: 500, wait: 0 },
+                Ev::UAge(160),
+                Ev::Inbound(2, INBOUND_BASE + 3),
+                Ev::InReq { id: INBOUND_BASE + 3, rq: Req::GetProviders(500) },
+                fut_ev(INBOUND_BASE + 3, Some(FKind::InSend), Res::SendOk, 0),
+                Ev::UCmd { q: 3, uc: 4, qtag: 1, qn: 1, rk: 500, len: 1, expc: 0 },
+            ],
+        ),
+        (
+            // put_record_to_peers with and without update_local_store: only the first leaves the record in
+            // the local store; a record of 4 bytes is refused by the store but the operation runs
+            "put_to_peers_update_local_store",
+            Header { k: 20, mgr: vec![(0, 2)], known: vec![0], cap: 0, mode: 1, pool: MAX_POOL },
+            vec![
+                Ev::Established(0, true),
+                Ev::UPutToPeers { q: 0, qtag: 0, qn: 1, rk: 5, len: 1, publ: 1, expc: 0, upd: true, given: vec![0] },
+                Ev::Opened(0, 0),
+                fut_ev(0, Some(FKind::ReqEat), Res::Read(Msg::PutValue), 0),
+                Ev::UPutToPeers { q: 1, qtag: 2, qn: 3, rk: 6, len: 1, publ: 0, expc: 0, upd: false, given: vec![0] },
+                Ev::Opened(0, 1),
+                fut_ev(1, Some(FKind::ReqEat), Res::Assume, 0),
+                Ev::UPutToPeers { q: 2, qtag: 1, qn: 1, rk: 7, len: 4, publ: 0, expc: 0, upd: true, given: vec![0] },
+                Ev::Opened(0, 2),
+                fut_ev(2, Some(FKind::ReqEat), Res::SendFail, 0),
+                Ev::UCmd { q: 3, uc: 3, qtag: 1, qn: 1, rk: 5, len: 1, expc: 0 },
+                Ev::UCmd { q: 4, uc: 3, qtag: 1, qn: 1, rk: 6, len: 1, expc: 0 },
+                Ev::UCmd { q: 5, uc: 3, qtag: 1, qn: 1, rk: 7, len: 1, expc: 0 },
             ],
         ),
         (
@@ -2320,7 +2646,7 @@ fn full_bucket_witness() -> (&'static str, Header, Vec<Ev>) {
         "f_c16e_put_to_peers_full_bucket",
         Header { k: 20, mgr: vec![(y, 1), (x, 1)], known, cap: 0, mode: 1, pool: POOL },
         vec![
-            Ev::UPutToPeers { q: 0, qtag: 1, qn: 1, rk: 5, given: vec![x] },
+            Ev::UPutToPeers { q: 0, qtag: 1, qn: 1, rk: 5, len: 1, publ: 0, expc: 0, upd: false, given: vec![x] },
             Ev::Established(y, true),
             Ev::Established(x, true),
         ],
@@ -2407,6 +2733,11 @@ pub fn main(args: &Args) {
                 std::fs::write(Path::new(dir).join(format!("{name}.case")), format!("# {name}\ncase: {}\n", line(&case))).unwrap();
             }
         }
+        for (name, c) in handle_stream::witnesses() {
+            if let Some((case, _)) = run_stored(&c) {
+                std::fs::write(Path::new(dir).join(format!("{name}.case")), format!("# {name}\ncase: {}\n", line(&case))).unwrap();
+            }
+        }
     }
     let stored: Vec<Vec<u64>> = match args.str("replay") {
         Some(f) => read_cases(Path::new(f)),
@@ -2432,6 +2763,10 @@ pub fn main(args: &Args) {
     let n = args.u64("cases", 100);
     let seed = args.u64("seed", 1);
     let long = args.str("tier") == Some("thorough");
+    // the KademliaHandle in front of the loop (c16_handle.rs): one case for every eight histories
+    for i in 0..(n / 8).max(1) {
+        run_one(|| handle_stream::generate(seed.wrapping_mul(1_000_003).wrapping_add(i)), &[handle_stream::HANDLE_TAG], &mut out);
+    }
     for i in 0..n {
         // every fifth history runs on an event channel of 1-3 slots
         let cap = if i % 5 == 4 { 1 + (i / 5) % 3 } else { 0 };
